@@ -92,7 +92,21 @@ SLICE_SETS = [
     ["[a-z]+", "[a-z0-9 ]+"],
     ['[^"\\\\]{1,10}', '[^"\\\\\\x00-\\x1F\\x7F]+'],
     ["[0-9]+", "[a-z0-9]+", "[^\"]+"],
+    # several sibling slices, some with a slice nested inside them
+    ["[a-z]+", "[0-9]+", "[A-Z ]+", "[A-Z]+"],
+    ["[a-z]+", "[a-f]+", "[0-9]+", "[A-Z]+", "[ .,]+"],
+    ["[ab]+", "[cd]+", "[ef]+", "[e]+", "[0-9]{1,3}"],
+    ["[a-m]+", "[n-z]+", "[0-4]+", "[5-9]+", "[a-c]+", "[x-z]{1,2}"],
 ]
+
+
+def random_slices(rng):
+    """3-6 slices over letter / digit classes: some disjoint siblings, some nested in another one"""
+    tops = rng.sample(["[a-z]+", "[0-9]+", "[A-Z]+", "[A-Z ]+", "[ .,;]+", "[a-z0-9]+", "[a-m]+", "[n-z]+", "[!?]+"], rng.randint(2, 4))
+    nested = rng.sample(["[a-f]+", "[0-3]+", "[A-F]+", "[aeiou]+", "[x-z]{1,3}", "[0-9]{1,2}", "[a-c]{1,4}", "[B-D]+"], rng.randint(1, 3))
+    out = tops + nested
+    rng.shuffle(out)
+    return out
 
 
 MULTI_EOS = {"C01", "C11", "C12", "C18"}
@@ -116,10 +130,10 @@ def build_job(prop, tier, seed, n_episodes, grammars, steps=(12, 30), vocab_choi
             # stop= / max_tokens= grammars do not support rollback (C12's quantifier excludes them)
             w.update({"rollback": 0, "reset": 0, "rollback_over": 0, "shadow_after_rollback": 0})
         if prop == "C10":
-            sl = rng.choice(SLICE_SETS[1:])
+            sl = rng.choice(SLICE_SETS[1:]) if rng.random() < 0.6 else random_slices(rng)
             cfgs = [{"vocab": voc, "vid": 0, "slices": sl}, {"vocab": voc, "vid": 0, "slices": []}]
             if rng.random() < 0.4:
-                cfgs.append({"vocab": voc, "vid": 0, "slices": rng.choice(SLICE_SETS[1:])})
+                cfgs.append({"vocab": voc, "vid": 0, "slices": rng.choice(SLICE_SETS[1:]) if rng.random() < 0.5 else random_slices(rng)})
         else:
             cfgs = [{"vocab": voc, "vid": 0, "slices": rng.choice(SLICE_SETS[:3])}]
         eps.append({"gid": name, "mode": prop, "seed": rng.randrange(1 << 30), "steps": rng.randint(*steps),
